@@ -298,7 +298,7 @@ func vParN(fs ...func()) {
 			}(fs[k])
 			select {
 			case <-d:
-			case <-time.After(20 * time.Second):
+			case <-time.After(8 * time.Second):
 				vFailures = append(vFailures, "deadlock")
 				return
 			}
@@ -686,3 +686,6 @@ func vJSONSwap(path, ja, jb string) bool {
 	}
 	return set(ja, vb) && set(jb, va) && vjsonStore(path, root)
 }
+
+// vNoHang: natively a hang is a hang (the replay's test timeout reports it).
+func vNoHang(on bool) {}
